@@ -554,7 +554,11 @@ def check_escaper(ck, L, fn, ORA):
             return pat.get('v') == ch
         if k == 'PRange':
             lo, hi = pat.get('lo'), pat.get('hi')
-            return lo is not None and hi is not None and lo <= ch <= hi
+            lo = lo.get('v') if isinstance(lo, dict) else lo
+            hi = hi.get('v') if isinstance(hi, dict) else hi
+            if not (isinstance(lo, str) and isinstance(hi, str) and len(lo) == 1 and len(hi) == 1):
+                return False
+            return lo <= ch <= hi if pat.get('end', 'included') != 'excluded' else lo <= ch < hi
         if k == 'POr':
             return any(matches(a, ch) for a in pat['alts'])
         return False
